@@ -666,8 +666,9 @@ def writeVia (st : St) (c : Chain) (f : Val → Val) : St × Wrote :=
           (notifyAll st [T w.tpath, C w.tpath], .done)
         | some _ => (notifyAll st w.tr, .done)
 
-/-- `Patch::patch`: untracked writer, `triggers_for_path(path).notify()` for every changed path, then the
-writer is dropped -/
+/-- `Patch::patch`: untracked writer, the changed paths are collected, the writer is dropped, then
+`triggers_for_path(path).notify()` for every changed path (before fix a211bab the notifications ran while the
+write guard was still held: a synchronous reader could not read the store, F-C16-10) -/
 def patchVia (st : St) (c : Chain) (new : Val) : St × Wrote :=
   let r := walkH st c
   let st := r.1
@@ -681,8 +682,9 @@ def patchVia (st : St) (c : Chain) (new : Val) : St × Wrote :=
       | some old =>
         let pr := patchVal old.untop new.untop (pathH st c w)
         let st := { st with val := st.val.set pos (old.retop pr.1) }
-        let st := pr.2.foldl (fun s p => notifyAll s (triggersForPath p)) st
-        (notifyAll st w.un, .done)
+        -- since fix a211bab: the (untracked) writer is dropped first, then every changed path is notified
+        let st := notifyAll st w.un
+        (pr.2.foldl (fun s p => notifyAll s (triggersForPath p)) st, .done)
 
 def swapList (xs : List Val) (i j : Nat) : List Val :=
   match xs[i]?, xs[j]? with
